@@ -24,7 +24,7 @@ type c13 struct{}
 func (c13) ID() string    { return "C13" }
 func (c13) Level() string { return "model_checking" }
 func (c13) Rule() string {
-	return "scenario = (DAG up to isomorphism on <=4 services, direction, concurrency limit, root selection, error injection); for each scenario every schedule of the instrumented traversal (caller, coordinator, one thread per visit; errgroup's own semaphore/WaitGroup/Once scheduled too) with iterative preemption bounding and every ready select branch, happens-before state caching; 8 monitors on every execution incl. ThreadSanitizer inside the schedule. state = distinct happens-before prefix expanded; transition = executed synchronisation step; distinct = scenarios explored"
+	return "scenario = (DAG up to isomorphism on <=4 services, direction, concurrency limit, root selection, error injection: plain errors, and on <=3 services errors that are or wrap context.Canceled / DeadlineExceeded); for each scenario every schedule of the instrumented traversal (caller, coordinator, one thread per visit; errgroup's own semaphore/WaitGroup/Once scheduled too) with iterative preemption bounding and every ready select branch, happens-before state caching; 8 monitors on every execution incl. ThreadSanitizer inside the schedule. state = distinct happens-before prefix expanded; transition = executed synchronisation step; distinct = scenarios explored"
 }
 func (c13) Env() []string { return []string{"GOMAXPROCS=1"} }
 func (c13) Assumptions() []string {
@@ -157,6 +157,9 @@ type c13scn struct {
 	roots   []int
 	errs    []int
 	optDeps bool // services also carry optional dependencies on a disabled and on a missing service
+	// errKind: what a failing visitor returns: 0 a plain error, 1 an error wrapping context.Canceled, 2 one wrapping
+	// context.DeadlineExceeded, 3 context.Canceled itself (the walk's own context is never cancelled by the caller)
+	errKind int
 }
 
 func (s c13scn) id() string {
@@ -166,6 +169,9 @@ func (s c13scn) id() string {
 	}
 	if s.optDeps {
 		dir += "+optdeps"
+	}
+	if s.errKind > 0 {
+		dir += fmt.Sprintf("+errkind%d", s.errKind)
 	}
 	return fmt.Sprintf("%s/%s/lim%d/roots%v/errs%v", s.d.key, dir, s.limit, s.roots, s.errs)
 }
@@ -339,7 +345,16 @@ func (s c13scn) setup() (func(), func(*vsched.Sched) string, *c13run, *types.Pro
 	r := &c13run{log: &Log{Ev: make([]Ev, 0, 32)}}
 	errFor := map[string]error{}
 	for _, e := range s.errs {
-		errFor[svcNames[e]] = errors.New("inj-" + svcNames[e])
+		switch s.errKind {
+		case 1:
+			errFor[svcNames[e]] = fmt.Errorf("inj-%s: %w", svcNames[e], context.Canceled)
+		case 2:
+			errFor[svcNames[e]] = fmt.Errorf("inj-%s: %w", svcNames[e], context.DeadlineExceeded)
+		case 3:
+			errFor[svcNames[e]] = context.Canceled
+		default:
+			errFor[svcNames[e]] = errors.New("inj-" + svcNames[e])
+		}
 	}
 	var opts []func(*graph.Options)
 	if s.reverse {
@@ -408,6 +423,16 @@ func c13scenarios(quick bool) []c13scn {
 								}
 							}
 							out = append(out, c13scn{d: d, reverse: rev, limit: lim, roots: roots, errs: errs})
+						}
+					}
+				}
+				if n <= 3 {
+					// what the failing visitor returns does not matter: errors that are, or wrap, the context errors
+					for _, lim := range []int{0, 1} {
+						for _, errs := range singles {
+							for ek := 1; ek <= 3; ek++ {
+								out = append(out, c13scn{d: d, reverse: rev, limit: lim, errs: errs, errKind: ek})
+							}
 						}
 					}
 				}
